@@ -481,6 +481,13 @@ class C10(Check):
             yield self.mk(0, "::", 6, True, v, stem=b"fc/", falsy_ctx=True)
             yield self.mk(1, "::", 4, True, v, tail=b"/fc", falsy_ctx=True)
             yield self.mk(0, "::", 4, True, v, stem=b"fc/", falsy_ctx=True, repeat=2, debug=True)
+        # legal names at natural limits: 255 / 256 / 400 characters, every 7-bit character but NUL in one name
+        allchars = bytes(range(1, 128))
+        for tl in (b"L" * 255, b"M" * 256, b"N" * 400, allchars):
+            yield self.mk(0, "::", 6, True, (False, True), stem=b"lim/", tail=b"/" + tl)
+        printable = bytes(ch for ch in range(33, 127) if ch not in b"?#")
+        for tl in (b"U" * 255, b"V" * 4096, b"W" * 30000, printable, printable + b"?" + printable):
+            yield self.mk(1, "::", 6, True, (False, True), tail=b"/" + tl, headers=[("X-Long", "h" * 8000)])
         # names that are falsy / sentinel-like as Python values
         for nm in (b"0", b"None", b"False", b"-1", b"%00", b"\x7f"):
             yield self.mk(0, "::", 6, True, (False, True), stem=nm + b"/", tail=b"/" + nm)
